@@ -96,7 +96,7 @@ fn main() {
         "c01" => c01::run(seed, thorough, cases, &work, &stage),
         "c05" => c05::run(seed, thorough, cases, &work, &stage, &profile),
         "c12" => c12::run(seed, thorough, cases),
-        "c16" => c16::run(seed, thorough, cases),
+        "c16" => c16::run(seed, thorough, cases, &work),
         "c17" => c17::run(seed, thorough, cases),
         "c18" => c18::run(seed, thorough, cases),
         "c19" => c19::run(seed, thorough, cases),
